@@ -126,7 +126,7 @@ def lib_matrix(pot, space):
     return np.array(cols)  # (ndof, ncomp, npts)
 
 
-SCALAR = [("laplace", None), ("helmholtz", 0.9), ("helmholtz", 2.5), ("helmholtz", 1 + 0.5j), ("helmholtz", -0.7 + 0.2j), ("modified_helmholtz", 0.8)]
+SCALAR = [("laplace", None), ("helmholtz", 0.9), ("helmholtz", 2.5), ("helmholtz", 1 + 0.5j), ("helmholtz", -0.7 + 0.2j), ("helmholtz", 0.6j), ("modified_helmholtz", 0.8)]
 MAXK = [0.9, 1 + 0.5j]
 
 
